@@ -4,3 +4,4 @@ cd "$(dirname "$0")" || exit 1
 python3-vt -c "import z3; print('z3', z3.get_version_string())" || exit 1
 test -x /venv/bin/python || echo "note: /venv/bin/python missing, replay falls back to python3-vt"
 python3-vt -m symx.selftest || exit 1
+python3 tools/check_layout.py || exit 1
